@@ -44,12 +44,14 @@ func (o goSliceObject) getValue(index int64) (reflect.Value, bool) {
 }
 
 func (o *goSliceObject) setLength(value Value) {
-	want, err := value.ToInteger()
-	if err != nil {
-		panic(goValueError(err))
+	want := value.number()
+	if want.kind != numberInteger || !isUint32(want.int64) {
+		// Not an array length (15.4.5.1 step 3.c): NaN, a fraction, negative or above 2^32-1.
+		// A request like 1e100 used to reach reflect.MakeSlice, which panics on it.
+		panic(goValueError(errors.New("RangeError: Invalid array length")))
 	}
 
-	wantInt := int(want)
+	wantInt := int(want.int64)
 	switch {
 	case wantInt < 0:
 		panic(goValueError(errors.New("RangeError: Invalid array length")))
